@@ -66,4 +66,5 @@ def run(ctx, rep):
     rep.run(RH2.rule_guard_truth_tables, ctx, rep, "H17")
     rep.run(RM.rule_guard_builders_by_evaluation, ctx, rep, "H18")
     rep.run(RID.rule_routines_by_evaluation, ctx, rep, "H19")
+    rep.run(RID.rule_property_accessors_by_evaluation, ctx, rep, "H20", parts=("sites", "routines"))
     rep.run(RF.rule_locals_defined, ctx, rep, "U1", packages=("gtwrap/matlab_wrapper",), min_functions=3)
